@@ -30,6 +30,10 @@ def cases(seed, tier):
         out.append({"gen": "zoo", "seed": rng.randrange(2 ** 31), "max_size": 2 if tier == "quick" else rng.choice([2, 3, 4]),
                     "orient": [None, None, "S+", "S-"][i % 4], "sorted": i % 5 != 4, "orders": 3 if tier == "quick" else 7,
                     "first": (i * 3) % 27, "irows": ["list", "tuple", "npint"][i % 3]})
+    # meshes with several hundred cells (element ids beyond the range in which small integers are shared objects, table sizes past 256)
+    for i in range(3 if tier == "quick" else 40):
+        out.append({"gen": "zoo", "seed": rng.randrange(2 ** 31), "max_size": 2, "big": rng.choice([50, 60, 90]), "orient": [None, "S+", None][i % 3], "sorted": i % 2 == 0,
+                    "orders": 1, "first": (i * 5) % 27, "irows": ["list", "npint", "tuple"][i % 3]})
     return out
 
 
@@ -172,6 +176,16 @@ def _boundary_standalone(ctx, m, ref, V, orient):
 def run_case(desc, ctx):
     z = volumes.make(desc["seed"], max_size=desc["max_size"], orient=desc["orient"])
     V, C = z["V"], z["C"]
+    if desc.get("big"):
+        rb = random.Random(desc["seed"] ^ 0xb16)
+        Vb, Cb = (volumes.kuhn_block if rb.random() < 0.5 else volumes.five_tet_block)(volumes.random_cubes(rb, 0, full=(4, 4, 4 if desc["big"] < 90 else 5)))
+        Vb, Cb = volumes.renumber(np.asarray(Vb, float), Cb, rb)[:2]
+        Cb = volumes.permute_cells(Cb, rb)
+        if desc["orient"] in ("S+", "S-"):
+            Cb = volumes.orient_cells(Vb, Cb, positive=desc["orient"] == "S+")
+        V, C = Vb, [list(map(int, c)) for c in Cb]
+        z = dict(z, cls="big_block")
+        ctx.cls("size:%d_cells" % len(C))
     unit = [1.0, 1.0, 1e-6, 1.0, 1e5, 1e-9][desc["seed"] % 6]
     if unit != 1.0:
         # the same mesh in very small / large units: every clause of the statement is combinatorial or a sign, hence unit-free
